@@ -597,8 +597,7 @@ func (o *loopOracle) Finish(st *stage.Stage, res *check.Result) {
 			if lf.restored {
 				res.Probe("stopped-and-restored")
 				mode, pwm := st.W.FileMode(id), st.W.FilePwm(id)
-				okMode := mode >= 0 && mode == lf.spec.Driver.InitMode && mode != 1
-				if !okMode && pwm != 255 && st.CancelledT == 0 {
+				if !handedBack(lf.spec, pwm, mode) && st.CancelledT == 0 {
 					res.Violate("C10", "restored-state", "restored-state fan="+lf.spec.Kind, 0, nil, "fan %s: regulation stopped but the fan was left in mode %d at PWM %d", id, mode, pwm)
 				}
 			}
